@@ -4,17 +4,29 @@ import BipVerif.Driver.Mnemonic
 import BipVerif.Driver.Addr
 import BipVerif.Driver.Bip44
 import BipVerif.Driver.Bip38
+import BipVerif.Driver.Monero
+import BipVerif.Driver.Substrate
 open BipVerif.Driver
 
-def allOps : List (String × Op) := codecOps ++ bip32Ops ++ mnemonicOps ++ addrOps ++ bip44Ops ++ bip38Ops
+def allOps : List (String × Op) := codecOps ++ bip32Ops ++ mnemonicOps ++ addrOps ++ bip44Ops ++ bip38Ops ++ moneroOps
 
 def handle (line : String) : String :=
-  match (line.trimAscii.toString.splitOn " ").filter (· ≠ "") with
+  -- request [ " | " oracle entries ]
+  let (req, ora) := match line.splitOn " | " with
+    | [r] => (r, "")
+    | r :: rest => (r, " ".intercalate rest)
+    | [] => ("", "")
+  match (req.trimAscii.toString.splitOn " ").filter (· ≠ "") with
   | [] => "bad-op"
   | op :: args =>
     match allOps.lookup op with
-    | none => "bad-op"
     | some f => (f args).getD "bad-args"
+    | none =>
+      match substrateOpsO.lookup op with
+      | none => "bad-op"
+      | some f => match parseOracle ora with
+        | none => "bad-oracle"
+        | some o => (f o args).getD "bad-args"
 
 partial def loop (h : IO.FS.Stream) (out : IO.FS.Stream) : IO Unit := do
   let line ← h.getLine
